@@ -97,13 +97,16 @@ def run_in_child(fn, timeout=60):
 class ChunkedFile(object):
     """File proxy: every write is cut into chunks that reach the OS one by one, with a tick between them."""
 
-    def __init__(self, path, mode, ticker, chunk=7):
+    def __init__(self, path, mode, ticker, chunk=7, fd=None):
         self._binary = "b" in mode
-        flags = os.O_WRONLY | os.O_CREAT | (os.O_TRUNC if "w" in mode else os.O_APPEND)
-        self._fd = os.open(path, flags, 0o644)
+        if fd is None:
+            flags = os.O_WRONLY | os.O_CREAT | (os.O_TRUNC if "w" in mode else os.O_APPEND)
+            self._fd = os.open(path, flags, 0o644)
+        else:
+            self._fd = fd
         self._ticker = ticker
         self._chunk = chunk
-        self._ticker.tick("open:%s" % os.path.basename(path))
+        self._ticker.tick("open:%s" % (os.path.basename(path) if path else "fd"))
 
     def write(self, data):
         if not self._binary:
@@ -139,6 +142,14 @@ def chunked_open(ticker, chunk=7, real_open=open):
             return ChunkedFile(path, mode, ticker, chunk)
         return real_open(path, mode, *a, **kw)
     return _open
+
+
+def chunked_fdopen(ticker, chunk=7, real_fdopen=os.fdopen):
+    def _fdopen(fd, mode="r", *a, **kw):
+        if any(c in mode for c in "wa") and "+" not in mode:
+            return ChunkedFile(None, mode, ticker, chunk, fd=fd)
+        return real_fdopen(fd, mode, *a, **kw)
+    return _fdopen
 
 
 # ---------------------------------------------------------------------------------------------
